@@ -46,6 +46,10 @@ def _line(maxlen):
         st.just(""),
         st.sampled_from([":type <<P0>>:", ":param <<P0>>:", ":type <<P0>>: ", ":type <<P0>>: given", ":returns:"]),
         # the text of the doccomment's own opening line, again, alone or at the end of a body line
+        # long lines with leading blanks (relative indentation of continuation lines, code samples)
+        st.sampled_from(["    an indented continuation line that is definitely longer than forty characters",
+                         "  set(EXAMPLE_VARIABLE \"a value in a code sample that makes the line long\")",
+                         " one leading blank, and then enough words to pass any length threshold one might think of"]),
         # ruler / banner lines
         st.sampled_from(["=====", "    ----", "~~~~~~~~", "****", "++++", "^^^^", "____", "==== ====", "#####", "-=-=-=-"]),
         st.sampled_from(["<<HDR>>", "Files are tagged with <<HDR>>", "<<HDR>> once more", "#[[[", "#]", "#[[[ <<HDR>>"]),
